@@ -71,7 +71,7 @@ def extract(repo):
     if not re.search(emit, sec):
         raise ValueError("SCOPEPrint: the guarded emission of a defined type (head absent or PROCESSED) is no longer as modelled")
     if re.search(r"while\( 1 \) \{ skipped = 0; SCOPEdo_types", sec) and re.search(r"else if\( t->search_id == CANPROCESS \) \{ skipped\+\+; \}", sec) \
-            and re.search(r"if\( !skipped \) \{ break; \}", sec):
+            and re.search(r"if\( !skipped( \|\| skipped == skipped_before)? \) \{ break; \}", sec):
         rescan = True
     elif "while" not in sec and sec.count("SCOPEdo_types") == 1:
         rescan = False
